@@ -346,7 +346,9 @@ def gen_cases(ctx):
             cases.append((h, [('map2seq', 'items', k, va)], 'transform'))
             cases.append((h, [('idx2map', 'items', k, va), ('map2idx', 'items', k, va)], 'transform'))
             cases.append((h, [('map2idx', 'items', k, va)], 'transform'))
-    keysets = [['a_b', 'c-d', 'e'], ['a_b-c'], ['__', '--'], ['plain'], [], ['a_b', 'a-b']]
+    keysets = [['a_b', 'c-d', 'e'], ['a_b-c'], ['__', '--'], ['plain'], [], ['a_b', 'a-b'],
+               # keys that are not Python identifiers in either spelling
+               ['2fa_enabled', 'my_file.txt', 'x_rate limit'], ['2fa-enabled', 'my-file.txt'], ['_', '-', 'é_ü', 'a_1.b_2'], ['class_', 'for-each']]
     for ks in keysets:
         m = M([(S(k), S('x')) for k in ks])
         cases.append((m, [('u2d',), ('d2u',)], 'dash'))
